@@ -289,7 +289,7 @@ def build_unit(unit, quiet=True):
     with open(cfile, 'w') as f:
         f.write('\n'.join(lines) + '\n')
     # call graph closure for contract replacement
-    contracted = {fn for fn, e in entries.items() if not e.get('inline')}
+    contracted = {fn for fn, e in entries.items() if not e.get('inline') and not e.get('no_replace')}
     repl = {}
     for fn in targets:
         seen = set()
